@@ -92,6 +92,13 @@ impl ParseData for OuterFrom {
 
     fn validate_body(&self, errors: &mut crate::error::Accumulator) {
         self.container.validate_body(errors);
+
+        // Variants are rejected one at a time as they are read; an enum without variants
+        // would otherwise reach code generation, which only supports structs here.
+        if let Data::Enum(_) = &self.container.data {
+            errors.push(Error::unsupported_shape("enum").with_span(&self.container.ident));
+        }
+
         if let Some(attrs) = &self.attrs {
             if self.forward_attrs.is_none() {
                 let container_name = match &self.container.data {
